@@ -218,12 +218,12 @@ theorem step_rel (ev : List Tok → Option Bool) {a b : St} (h : StRel S a b) (l
     | none => exact rfl
     | some v =>
       dsimp only
-      cases switch v a.chain with
+      cases switch v false a.chain with
       | error e => exact rfl
       | ok chn => exact ⟨rel, cl, cr, rfl, out⟩
   | else_ =>
     simp only [step, ← ch]
-    cases switch true a.chain with
+    cases switch true true a.chain with
     | error e => exact rfl
     | ok chn => exact ⟨rel, cl, cr, rfl, out⟩
   | endif =>
